@@ -179,6 +179,20 @@ class Space:
       H[idx] = cands.max(axis=0)
     return L, H
 
+  def col_bounds(self):
+    """(L, H) for every monomial column; cached and extended incrementally (variable boxes are
+    fixed at creation, so bounds of existing monomials never change)."""
+    c = getattr(self, '_cb', None)
+    n0 = 0 if c is None else len(c[0])
+    if n0 < self.ncols:
+      l, h = self.mono_bounds(np.arange(n0, self.ncols))
+      if c is None:
+        c = (l, h)
+      else:
+        c = (np.concatenate([c[0], l]), np.concatenate([c[1], h]))
+      self._cb = c
+    return c
+
   def random_point(self, rng: np.random.Generator) -> np.ndarray:
     """Random assignment of the non-atom variables inside the box, atoms evaluated."""
     lo = np.asarray(self.lo)
@@ -473,25 +487,23 @@ class PolyArr:
 
   def mass(self) -> np.ndarray:
     """Per-element upper bound of |value| over the box: sum |c_k| max|m_k|."""
-    M = _csr(self._aligned()).copy()
-    M.sum_duplicates()
-    cols = np.unique(M.indices)
-    L, H = self.sp.mono_bounds(cols)
-    mx = np.zeros(M.shape[1])
-    mx[cols] = np.maximum(np.abs(L), np.abs(H))
+    M = _csr(self._aligned())
+    if not M.has_canonical_format:
+      M = M.copy(); M.sum_duplicates()
+    L, H = self.sp.col_bounds()
+    mx = np.maximum(np.abs(L), np.abs(H))[:M.shape[1]]
+    mx = np.where(np.isfinite(mx), mx, 1e300)
     A = abs(M)
     return np.asarray(A @ mx).reshape(self.shape)
 
   def bounds(self):
     """Per-element interval [lo, hi] of the value over the box (interval arithmetic on the
     normal form)."""
-    M = _csr(self._aligned()).copy()
-    M.sum_duplicates()
-    cols = np.unique(M.indices)
-    L = np.zeros(M.shape[1]); H = np.zeros(M.shape[1])
-    if len(cols):
-      l, h = self.sp.mono_bounds(cols)
-      L[cols] = l; H[cols] = h
+    M = _csr(self._aligned())
+    if not M.has_canonical_format:
+      M = M.copy(); M.sum_duplicates()
+    L, H = self.sp.col_bounds()
+    L = L[:M.shape[1]]; H = H[:M.shape[1]]
     P = M.maximum(0); N = M.minimum(0)
     lo = np.asarray(P @ L + N @ H).reshape(self.shape)
     hi = np.asarray(P @ H + N @ L).reshape(self.shape)
